@@ -382,9 +382,16 @@ def subset(check, prog):
     od = intern(('attr', ('attr', sym('self'), 'data'), 'original_dims'))
     stores = {e['key']: e['value'] for e in it.effects if e['kind'] == 'setitem' and
               e['target_src'].startswith('schema')}
+    conds = {e['key']: e['cond'] for e in it.effects if e['kind'] == 'setitem' and
+             e['target_src'].startswith('schema')}
     for ax in ('x', 'y', 'z'):
         want = intern(('idx', od, ('const', ax)))
         got = stores.get(('const', ax))
+        # ... on the paths on which the record has that axis (a test whether it
+        # has must not be turned round)
+        for t_, pol in conds.get(('const', ax), ()):
+            if t_ == ('cmp', 'in', ('const', ax), od) and not pol:
+                got = None
         if ax == 'z' and got is not None and got[0] == 'ite' and \
                 got[1] == ('cmp', 'in', ('const', 'z'), od):
             got = got[2]        # (a record without z leaves the plane alone)
@@ -414,13 +421,16 @@ def subset(check, prog):
     dims_t = intern(('attr', data_t, 'dims'))
     flat_tests = []
     if dg:
-        for t, p in dg[0]['cond']:
+        from .common import norm_cond as _nc
+        for t, p in _nc(dg[0]['cond']):
             for x in subterms(t):
-                if x[0] == 'cmp' and x[1] == 'in' and x[2] == ('const', 'flat') and \
-                        any(y in (dims_t, data_t) for y in subterms(x[3])):
-                    flat_tests.append(x)
-                if x[0] == 'call' and x[1] == 'hasattr' and len(x[2]) == 2 and \
-                        x[2][0] == data_t and x[2][1] == ('const', 'flat'):
+                hit = (x[0] == 'cmp' and x[1] == 'in' and x[2] == ('const', 'flat') and
+                       any(y in (dims_t, data_t) for y in subterms(x[3]))) or \
+                    (x[0] == 'call' and x[1] == 'hasattr' and len(x[2]) == 2 and
+                     x[2][0] == data_t and x[2][1] == ('const', 'flat'))
+                # (the test itself, holding: not its negation, and not buried in
+                # a larger expression that is assumed false)
+                if hit and (p or x is not t) and (x is t or p):
                     flat_tests.append(x)
     check.require(bool(flat_tests), 'D2-original-axes', 'FitResult.forward subset test',
                   'the detector is rebuilt only when the data have the flat dimension',
